@@ -29,6 +29,7 @@ def ts_units(ts_us, cfg):
     res = cfg.get("tsresol")
     off = cfg.get("tsoffset", 0)
     rel = ts_us - off * 1000000
+    assert rel >= 0, "timestamp before if_tsoffset is not representable"
     if res is None:
         return rel
     kind, k = res
